@@ -76,18 +76,7 @@ static std::vector<unsigned long> rel_indices(const Kind& rk, const Shape& s, co
     if (sel=="ev1" || sel=="ev2") {
         // "event" relations: a single transition on one or two variables, identity on every other variable; ev2 = unions of two events
         // (the shapes of relation the saturation algorithms split by level); needs relPoints <= 64 so that a relation is a bit mask
-        std::vector<unsigned long> ev; int x[16], xp[16]; long RP = s.relPoints();
-        if (RP>64) return v;
-        for (int a=1; a<=s.K(); a++) for (int b=a; b<=s.K(); b++) {
-            int ba=s.b[a-1], bb=s.b[b-1];
-            for (int fa=0;fa<ba;fa++) for (int ta=0;ta<ba;ta++) for (int fb=0;fb<(a==b?1:bb);fb++) for (int tb=0;tb<(a==b?1:bb);tb++) {
-                unsigned long m=0;
-                for (long p=0;p<RP;p++) { decode_rel(s,p,x,xp); bool ok = x[a]==fa && xp[a]==ta && (a==b || (x[b]==fb && xp[b]==tb)); for (int u=1;u<=s.K();u++) if (u!=a && u!=b && x[u]!=xp[u]) ok=false; if (ok) m|=1UL<<p; }
-                ev.push_back(m);
-            }
-        }
-        if (sel=="ev1") v=ev; else for (size_t i=0;i<ev.size();i++) for (size_t j=i;j<ev.size();j++) v.push_back(ev[i]|ev[j]);
-        std::sort(v.begin(),v.end()); v.erase(std::unique(v.begin(),v.end()),v.end());
+        v = event_masks(s, sel=="ev2");
         return v;
     }
     return sel=="fam0" ? structured_family(rk,s,V,1,true) : structured_family(rk,s,V,2,true);
